@@ -231,8 +231,9 @@ def _get_unused_imports(ast_tree: ast.Module) -> Collection[str]:
             full_name = re.sub(r"\.[^\.]*$", "", full_name)
             names.add(full_name)
 
-    # `import a.b` binds a, so it is in use whenever a is, also if a.b is never spelled out
-    return {name for name in imports - names if name.split(".")[0] not in names}
+    # `import a.b` binds a, so it is in use whenever a is, also if a.b is never spelled out.
+    # `from a import *` binds what a exports and no name "*", which of these are used is not known.
+    return {name for name in imports - names - {"*"} if name.split(".")[0] not in names}
 
 
 def _get_unused_imports_split(
